@@ -231,7 +231,7 @@ func reifyMap(opts *options, to reflect.Value, from *Config, validators []valida
 			return err
 		}
 		if v.IsValid() {
-			to.SetMapIndex(key, v)
+			to.SetMapIndex(key, pointerize(to.Type().Elem(), v.Type(), v))
 		}
 	}
 
@@ -637,7 +637,7 @@ func reifyDoArray(
 				return reflect.Value{}, err
 			}
 			if v.IsValid() {
-				to.Index(idx).Set(v)
+				to.Index(idx).Set(pointerize(elemT, v.Type(), v))
 			}
 		} else {
 			if err := tryRecursiveValidate(to.Index(idx), opts.opts, nil); err != nil {
